@@ -129,6 +129,8 @@ type FnCtx struct {
 	iters       map[*ssa.Range]*rangeIter
 	pureDefs    map[*ssa.Function]*pureDef
 	edges       map[[2]int]*Term
+	litText     map[*Term]string
+	oblNames    map[string]int
 }
 
 type deferRec struct {
@@ -203,6 +205,12 @@ func (fc *FnCtx) oblige(st *State, kind, name string, goal *Term, where, text st
 	if fc.pureMode {
 		return nil
 	}
+	// obligation names are unique within a function (a second back edge, a second return of the
+	// same effect site ... get a ~n suffix)
+	fc.oblNames[name]++
+	if n := fc.oblNames[name]; n > 1 {
+		name = fmt.Sprintf("%s~%d", name, n)
+	}
 	o := &Obligation{Name: name, Kind: kind, Fn: fc.fnName(), NHyps: len(fc.hyps), Reach: st.reach, Goal: goal, Where: where, Text: text, fc: fc}
 	fc.obls = append(fc.obls, o)
 	// after asserting, assume it (standard assert-then-assume)
@@ -265,6 +273,7 @@ func (fc *FnCtx) resetPass() {
 	fc.calleesUsed = map[string]bool{}
 	fc.cellNames = map[string][]*ssa.Alloc{}
 	fc.guardCount = map[string]int{}
+	fc.oblNames = map[string]int{}
 	fc.eng.resetPure(fc)
 }
 
@@ -663,6 +672,15 @@ func (fc *FnCtx) assumeWellFormed(st *State, v *Term, t types.Type) {
 		arr := tb.App("s_arr", "Ref", v)
 		fc.assume(st, tb.And(tb.Le(tb.Int(0), ln), tb.Le(ln, cp), tb.Le(tb.Int(0), off),
 			tb.Implies(tb.Eq(arr, tb.Const("null", "Ref")), tb.And(tb.Eq(cp, tb.Int(0)), tb.Eq(off, tb.Int(0))))))
+		if !fc.pureMode {
+			al := fc.heapGet(st, "alloc", ArraySort("Ref", "Bool"))
+			fc.assume(st, tb.Or(tb.Eq(arr, tb.Const("null", "Ref")), tb.Select(al, arr)))
+		}
+	case *types.Pointer, *types.Map:
+		if !fc.pureMode && v.Sort == "Ref" {
+			al := fc.heapGet(st, "alloc", ArraySort("Ref", "Bool"))
+			fc.assume(st, tb.Or(tb.Eq(v, tb.Const("null", "Ref")), tb.Select(al, v)))
+		}
 	case *types.Struct:
 		srt := fc.so.Sort(t)
 		for i := 0; i < u.NumFields(); i++ {
